@@ -34,6 +34,11 @@ def proj_ops(tier, rng, n):
         sph = from_lonlat(p)
         o = find_nearest_origin(sph).id
         ops.append(f'dfwd {geo_gens.fb(sph[0])} {geo_gens.fb(sph[1])} {o}')
+        if rng.random() < 0.5:
+            # the same point expressed on the second-nearest face (reflected mirror triangles, wrapped gamma)
+            from a5.core.origin import origins, haversine
+            o2 = sorted(origins, key=lambda q: haversine(sph, q.axis))[1].id
+            ops.append(f'dfwd {geo_gens.fb(sph[0])} {geo_gens.fb(sph[1])} {o2}')
     for _ in range(n):
         ops.append(f'dinv {geo_gens.fb(rng.uniform(-0.7, 0.7))} {geo_gens.fb(rng.uniform(-0.7, 0.7))} {rng.randrange(12)}')
     return ops
